@@ -705,7 +705,8 @@ def rule_joinfirst(ctx):
                     fact_strs(le)))
     agg(ctx, "joinfirst", pa, descs[0].node if descs else pa.node, "sketch.append((tag, args, shm name)) in the worker start loop",
         "each worker (and so the callback) receives its sketches in the documented alphabetical order cms, hh, hll",
-        res or [(False, "no (tag, args, block name) descriptors are built for the workers", [])])
+        res or [(None, "no literal (tag, args, block name) descriptors are appended in the worker start loop: the way the workers get "
+                       "their sketches is not read", [])])
     # every sketch created for a worker is handed to it: on each way through one iteration of the start loop the descriptors built are
     # exactly those of the sketches created on that way, and a descriptor names the block of the array of its own tag
     fac_tag = {"CountMin": "cms", "HeavyHitters": "hh", "HyperLogLog": "hll"}
@@ -720,7 +721,7 @@ def rule_joinfirst(ctx):
                     "a worker for which the sketches %s are created receives the descriptors %s: a requested sketch is never filled (or filled twice)" % (made, seq),
                     fact_strs(le)))
     agg(ctx, "joinfirst", pa, descs[0].node if descs else pa.node, "one descriptor per sketch created for the worker",
-        "every sketch created for a worker is handed to that worker exactly once", res or [(False, "no descriptors", [])])
+        "every sketch created for a worker is handed to that worker exactly once", res or [(None, "no descriptors read", [])])
     for d in {id(d.node): d for d in descs}.values():
         t = tag_of(d)
         arr = roles0[t]["array"]
@@ -755,8 +756,10 @@ def rule_joinfirst(ctx):
         arr, fin = roles[tag]["array"], roles[tag]["final"]
         m = roles[tag]["merges"]
         if arr is None or not m:
-            ctx.ob("joinfirst", pa, pa.node, "%s sketches" % tag, "per-worker %s sketches are created and merged" % tag, False,
-                   "no list of %s(...) sketches merged by parallel_merging" % fac)
+            # parallel_merging is called, but not on a list the analysis can tie to this factory (e.g. a dict of lists filled by a
+            # helper): not read -- undecided; no merge call at all: the per-worker sketches are never merged
+            ctx.ob("joinfirst", pa, pa.node, "%s sketches" % tag, "per-worker %s sketches are created and merged" % tag, None if merges else False,
+                   "no list of %s(...) sketches merged by parallel_merging%s" % (fac, " is read from this shape" if merges else ""))
             continue
         ap = roles[tag]["appends"]
         shm = bool(ap) and any(k.arg == "shared_memory" and isinstance(k.value, ast.Constant) and k.value.value is True for k in ap[0][1].keywords)
